@@ -1444,6 +1444,18 @@ class TestSubprocess:
             if self.stde_task:
                 self.stde_task.cancel()
 
+    async def _kill_uninterrupted(self) -> T.Optional[str]:
+        # A cancellation (--maxfail, Ctrl-C, SIGTERM) that arrives while the
+        # process is being killed must not abandon the kill sequence halfway:
+        # the process would be left running and the test would never be reported.
+        task = asyncio.ensure_future(self._kill())
+        while not task.done():
+            try:
+                await asyncio.shield(task)
+            except asyncio.CancelledError:
+                pass
+        return task.result()
+
     async def wait(self, test: 'TestRun') -> None:
         p = self._process
 
@@ -1451,11 +1463,11 @@ class TestSubprocess:
         try:
             await complete_all(self.all_futures, timeout=test.timeout)
         except asyncio.TimeoutError:
-            test.additional_error += await self._kill() or ''
+            test.additional_error += await self._kill_uninterrupted() or ''
             test.res = TestResult.TIMEOUT
         except asyncio.CancelledError:
             # The main loop must have seen Ctrl-C.
-            test.additional_error += await self._kill() or ''
+            test.additional_error += await self._kill_uninterrupted() or ''
             test.res = TestResult.INTERRUPT
         finally:
             if self.postwait_fn:
